@@ -701,6 +701,19 @@ impl<'w> ChainSim<'w> {
 				};
 				let kind = bb.kind.clone();
 				let (hash, header_bad) = (bb.hash, bb.header_bad);
+				if std::env::var("VERIF_DEBUG").is_ok() {
+					let h = &bb.block.header;
+					eprintln!(
+						"  bad header kind {} h{} edge_bits {} nonces {} verify_size {:?} parent #{} result {}",
+						kind,
+						h.height,
+						h.pow.edge_bits(),
+						h.pow.proof.nonces.len(),
+						grin_core::pow::verify_size(h).map_err(|e| format!("{:?}", e)),
+						bb.parent,
+						cls
+					);
+				}
 				if self.oracles.reject_bad && header_bad && res.is_ok() {
 					return Err(self.viol(
 						&format!("bad-header-accepted:{}", kind),
@@ -726,6 +739,19 @@ impl<'w> ChainSim<'w> {
 				};
 				let kind = bb.kind.clone();
 				let (hash, header_bad) = (bb.hash, bb.header_bad);
+				if std::env::var("VERIF_DEBUG").is_ok() {
+					let h = &bb.block.header;
+					eprintln!(
+						"  bad batch: last header kind {} h{} edge_bits {} verify_size {:?} parent #{} known-before {} result {}",
+						kind,
+						h.height,
+						h.pow.edge_bits(),
+						grin_core::pow::verify_size(h).map_err(|e| format!("{:?}", e)),
+						bb.parent,
+						self.models[n].headers.contains(&bb.parent),
+						cls
+					);
+				}
 				if self.oracles.reject_bad && header_bad && res.is_ok() {
 					return Err(self.viol(
 						&format!("bad-header-batch-accepted:{}", kind),
